@@ -108,6 +108,9 @@ def read_model_parameters(
     # elif paramStruct.nCrops == 1:
     # Only one crop type considered during simulation - i.e. no rotations
     # either within or between years
+    # (the crop calendar is completed, and with SwitchGDD converted, in place:
+    # the model works on its own copy so that the caller's Crop is left as given)
+    crop = deepcopy(crop)
     crop_list = [crop]
     param_struct.CropList = crop_list
     param_struct.NCrops = 1
